@@ -431,9 +431,10 @@ SUSP_SKELETONS["s-stop-in-cb/stopcb"] = ["stopcb" if o == "stop" else o for o in
 class Oracle:
     """the property's clauses on the implementation's own trace"""
 
-    def __init__(self, susp=(False, False, False)):
+    def __init__(self, susp=(False, False, False), has_name=True):
         self.problems = []
         self.susp = susp
+        self.has_name = has_name
 
     def judge(self, trace):
         fails, last_cb, cb_seq = 0, None, []
@@ -492,6 +493,11 @@ class Oracle:
                     fails = 100 if reported_kind == "auth" else fails + 1
                     want = min(round(1.8 ** min(fails, 10)), 60) if fails < 100 else 60
                     arms = [x for x in acts[j + 1:] if x.startswith("arm:")]
+                    # "immediately when an mDNS record for the device is seen while it is waiting": while the retry timer runs
+                    # the manager listens (when it knows the device's name), after EVERY failure
+                    if self.has_name and arms and arms[0] != "arm:0" and f["zc"] != "1" and f["stopped"] == "0":
+                        self.problems.append(("c18:not-listening-while-waiting", i, f"after failure #{fails if fails < 100 else 'auth'} the retry "
+                                              f"timer is armed ({arms[0]}) but the manager does not listen to mDNS"))
                     if not arms or arms[0] != f"arm:{want}":
                         self.problems.append((f"c18:backoff:n={fails}", i, f"after failure #{fails} the retry timer is {arms[:1]}, specified arm:{want}"))
                 elif a == "reset_tries":
@@ -628,7 +634,7 @@ def run(ck: Check):
             seen.add((f["st"], f["stopped"], f["cli"], f["locked"], f["waiters"], f["timer"] != "-", f["zc"]))
         for e in errors:
             dist["err:" + e] = dist.get("err:" + e, 0) + 1
-        for key, i, what in Oracle(susp).judge(trace)[:3]:
+        for key, i, what in Oracle(susp, has_name).judge(trace)[:3]:
             ck.violation(key, f"scenario {name} (ops {ops[:60]}, callbacks suspend {susp}), at op #{i}: {what}",
                          {"ops": ops, "has_name": has_name, "callbacks_suspend": list(susp), "at": i})
     # ---- backoff table, measured on the model for every n (the implementation's timers were judged by the oracle above)
